@@ -14,6 +14,7 @@ Line-protocol driver for the C11 models.
                                                          the naive reference for the same query
   page <fam> <ser> <fld>                                 the write buffer page (debug/correspondence)
   msel <lens,...> <qs> <qe> | <family days ...>          month-type family selection
+  fcall <func> <intervalSec> <value>                     a function call of the expression layer on one value
 cond (prefix): all | eq k v | in k v,v | and c c | or c c
 -/
 import LinVerif.Util.Proto
@@ -234,6 +235,16 @@ def step (st : St) (ws : List String) : St × String :=
         | some b => (st, showPage b)
         | none => (st, "no-page")
       | none => (st, "no-memdb")
+    | _, _, _ => (st, "bad-op")
+  | ["fcall", fn, sec, v] =>
+    match fn.toNat?, sec.toNat?, v.toInt? with
+    | some fn, some sec, some v =>
+      match FuncType.ofCode? fn with
+      | some f =>
+        match funcCall f sec v with
+        | some r => (st, s!"{r.num}/{r.den}")
+        | none => (st, "none")
+      | none => (st, "bad-op")
     | _, _, _ => (st, "bad-op")
   | "msel" :: lens :: qs :: qe :: "|" :: fams =>
     match natCsv? lens, qs.toNat?, qe.toNat?, fams.mapM String.toNat? with
